@@ -58,6 +58,13 @@ USAGE (all names importable from `harness.stubs`)
        with stubs.dyadic_noise(123, p=4, span=8): …               # np.random.normal -> k/2^p lattice noise
        with stubs.zero_noise(): …
 
+6. Auer's confidence-width table `alg.beta_t` (two forms exist: the fixed code keeps a dict keyed by
+   DESIGN; the original code kept an array aligned with the iteration order of S at modelling time)::
+
+       w = stubs.auer_get_widths(alg, S_order)       # -> {design: width row}; S_order only needed for the array form
+       stubs.auer_set_widths(alg, S_order, rows)     # installs rows[k] as the width of design S_order[k]
+       stubs.auer_width_form(alg)                    # "dict" | "array", detected once per vopy.algorithms.auer module
+
 Everything that patches restores in a `finally`, so several cases can run in one process.
 """
 from __future__ import annotations
@@ -800,3 +807,50 @@ def zero_noise():
         return np.zeros(size if size is not None else ()) + loc
 
     return _patched_normal(normal)
+
+
+# --------------------------------------------------------------------------------------------
+# 6. Auer's width table
+# --------------------------------------------------------------------------------------------
+_auer_form: dict = {}
+
+
+def auer_width_form(alg=None) -> str:
+    """"dict" if this tree's `Auer.modeling()` stores `beta_t` as a dict keyed by design, "array" if it
+    stores the positional array of the original code.  Detected once per `vopy.algorithms.auer` module
+    object by building a two-design Auer and calling its real `modeling()` (so a VOPY_REPO worktree with
+    the old code is handled too)."""
+    import vopy.algorithms.auer as AM
+
+    key = id(AM)
+    if key not in _auer_form:
+        a = build("Auer", in_data=np.array([[0.0], [1.0]]), out_data=np.zeros((2, 2)), epsilon=0.1)
+        a.round = 1
+        a.model.update()
+        a.modeling()
+        _auer_form[key] = "dict" if isinstance(a.beta_t, dict) else "array"
+    return _auer_form[key]
+
+
+def auer_get_widths(alg, S_order=None) -> dict:
+    """`{design index: width row (1-D float array)}` from `alg.beta_t` in either form.  For the array
+    form the caller passes `S_order` = iteration order of `alg.S` when `modeling()` ran (rows are
+    aligned with it)."""
+    bt = alg.beta_t
+    if isinstance(bt, dict):
+        return {int(k): np.array(v, dtype=float).reshape(-1) for k, v in bt.items()}
+    if S_order is None:
+        raise ValueError("positional beta_t: pass the iteration order of S at modelling time")
+    rows = np.asarray(bt, dtype=float)
+    return {int(i): rows[k].reshape(-1).copy() for k, i in enumerate(S_order)}
+
+
+def auer_set_widths(alg, S_order, rows) -> None:
+    """Install `rows[k]` as the confidence-width row of design `S_order[k]`, in the form the code
+    under test expects (what its own `modeling()` would have produced for `list(alg.S) == S_order`)."""
+    S_order = [int(i) for i in S_order]
+    rows = np.asarray(rows, dtype=float).reshape(len(S_order), -1)
+    if auer_width_form(alg) == "dict":
+        alg.beta_t = {i: rows[k].copy() for k, i in enumerate(S_order)}
+    else:
+        alg.beta_t = rows.copy()
